@@ -61,6 +61,8 @@ type MapArrKey map[Arr4]uint8
 type SetU8 map[uint8]Empty
 type Matrix []SliceU16B
 type Bigs []*big.Int
+type SortedBigs []*big.Int
+type MapLexOff map[uint8]uint8
 type Times []time.Time
 
 // ---------------------------------------------------------------- structs
@@ -356,6 +358,11 @@ func init() {
 	add("Matrix", Matrix{})
 	must(api.RegisterTypeSettings(Bigs{}, lp(b8)))
 	add("Bigs", Bigs{})
+	must(api.RegisterTypeSettings(SortedBigs{}, lp(b8).WithLexicalOrdering(true).WithArrayRules(
+		rules(serializer.ArrayValidationModeLexicalOrdering))))
+	add("SortedBigs", SortedBigs{})
+	must(api.RegisterTypeSettings(MapLexOff{}, lp(b8).WithLexicalOrdering(false)))
+	add("MapLexOff", MapLexOff{})
 	must(api.RegisterTypeSettings(Times{}, lp(b8).WithArrayRules(rules(
 		serializer.ArrayValidationModeLexicalOrdering|serializer.ArrayValidationModeNoDuplicates))))
 	add("Times", Times{})
